@@ -60,7 +60,7 @@ def gen_world(rng):
 
 def gen_prm_spec(rng, nd):
     return {"form": rng.weighted([("scalar", 3), ("array", 4), ("timevar", 2), ("ndarray", 1)]),
-            "dims": rng.subset(range(nd), 0, nd), "perm": rng.randint(0, 5), "vseed": rng.randint(0, 10 ** 6)}
+            "dims": rng.subset(range(nd), 0, nd), "perm": rng.randint(0, 5), "vseed": rng.randint(0, 10 ** 6), "nan": rng.chance(0.06)}
 
 
 class _St:
@@ -151,7 +151,7 @@ class StockSim(Engine):
             else:
                 kind = rng.weighted([("set_driver", 4), ("set_prms", 5), ("compute", 6), ("read", 2)])
             if kind == "set_driver":
-                op = {"op": "set_driver", "k": k, "how": rng.weighted([("whole", 3), ("entry", 2), ("setitem", 2), ("scale", 2), ("zero", 2)]), "vseed": rng.randint(0, 10 ** 6)}
+                op = {"op": "set_driver", "k": k, "how": rng.weighted([("whole", 3), ("entry", 2), ("setitem", 2), ("scale", 2), ("zero", 2), ("layout", 2)]), "vseed": rng.randint(0, 10 ** 6)}
             elif kind == "set_prms":
                 op = {"op": "set_prms", "k": k, "specs": [gen_prm_spec(rng, nd), gen_prm_spec(rng, nd)]}
                 if rng.chance(fp_bad):
@@ -163,7 +163,7 @@ class StockSim(Engine):
             elif kind == "read":
                 op = {"op": "read", "k": k, "what": rng.choice(["sf", "pdf"])}
             elif kind == "set_param":
-                op = {"op": "set_param", "which": rng.randint(0, 2), "spec": gen_prm_spec(rng, nd), "vseed": rng.randint(0, 10 ** 6)}
+                op = {"op": "set_param", "which": rng.randint(0, 2), "spec": gen_prm_spec(rng, nd), "vseed": rng.randint(0, 10 ** 6), "nan": rng.chance(0.08)}
                 if rng.chance(fp_bad):
                     op["bad"] = "negative"
                 elif rng.chance(0.2):
@@ -287,7 +287,11 @@ class StockSim(Engine):
         if form == "scalar":
             return float(np.round(rs.uniform(lo, hi), 3))
         if form == "ndarray":
-            return np.round(rs.uniform(lo, hi, size=dims.shape), 3)
+            v = np.round(rs.uniform(lo, hi, size=dims.shape), 3)
+            if spec.get("nan") and v.size > 1:
+                v.reshape(-1)[-1] = np.nan  # "not known" for one label combination: that series is NaN, the others are not affected
+                st.probes["parameter_with_nan_entry"] = st.probes.get("parameter_with_nan_entry", 0) + 1
+            return v
         dl = list(dims)
         sel = [dl[i % len(dl)] for i in spec["dims"]]
         uniq = []
@@ -301,7 +305,11 @@ class StockSim(Engine):
         rot = spec["perm"] % max(1, len(uniq))
         uniq = uniq[rot:] + uniq[:rot]
         ds = DimensionSet(dim_list=uniq)
-        return FlodymArray(dims=ds, values=np.round(rs.uniform(lo, hi, size=ds.shape), 3))
+        v = np.round(rs.uniform(lo, hi, size=ds.shape), 3)
+        if spec.get("nan") and v.size > 1:
+            v.reshape(-1)[-1] = np.nan
+            st.probes["parameter_with_nan_entry"] = st.probes.get("parameter_with_nan_entry", 0) + 1
+        return FlodymArray(dims=ds, values=v)
 
     def _prm_kwargs(self, st, lt_name, specs, bad=None):
         names = PRM_NAMES[lt_name]
@@ -408,11 +416,13 @@ class StockSim(Engine):
             return {"stock": stock.stock.values.copy()}
         return {"inflow": stock.inflow.values.copy(), "outflow": stock.outflow.values.copy()}
 
-    def _fresh(self, stock, drivers, lt=None):
+    def _fresh(self, stock, drivers, lt=None, given=None):
         kw = {"dims": stock.dims, "name": "fresh", "time_letter": stock.time_letter}
         if not isinstance(stock, SimpleFlowDrivenStock):
             lt = lt if lt is not None else stock.lifetime_model
             prms = {k: (None if v is None else np.array(v, copy=True)) for k, v in lt.prms.items()}
+            if given is not None:
+                prms = {k: (v.copy() if isinstance(v, FlodymArray) else (np.array(v, copy=True) if isinstance(v, np.ndarray) else v)) for k, v in given.items()}
             kw["lifetime_model"] = type(lt)(dims=stock.dims, time_letter=lt.time_letter, inflow_at=lt.inflow_at,
                                             n_pts_per_interval=lt.n_pts_per_interval, **prms)
         if isinstance(stock, StockDrivenDSM):
@@ -431,13 +441,13 @@ class StockSim(Engine):
                     diff = float(np.nanmax(np.abs(a - b))) if a.shape == b.shape else None
                 raise Violation(clause, f"{what}: '{k}' differs (max abs difference {diff})", cls=clause, array=k)
 
-    def _judge_compute(self, st, stock, drivers, what, lt=None):
+    def _judge_compute(self, st, stock, drivers, what, lt=None, given=None):
         """after a compute() that returned: results must equal those of a fresh object with the same inputs"""
         got = self._results(stock)
         try:
             with np.errstate(all="ignore"), warnings.catch_warnings():
                 warnings.simplefilter("ignore")
-                fresh = self._fresh(stock, drivers, lt)
+                fresh = self._fresh(stock, drivers, lt, given)
                 fresh.compute()
         except Exception as e:  # noqa
             st.clauses["recompute==fresh"] = st.clauses.get("recompute==fresh", 0) + 1
@@ -582,6 +592,8 @@ class StockSim(Engine):
                     a.values[...] = 0.0
                     self._probe(st, "driver_set_to_zero")
                 elif op["how"] == "whole":
+                    if new.ndim >= 2 and op["vseed"] % 3 == 0:
+                        new = np.asfortranarray(new)
                     a.set_values(new)
                 elif op["how"] == "setitem":
                     a[...] = FlodymArray(dims=a.dims, values=new)
@@ -590,6 +602,19 @@ class StockSim(Engine):
                 else:
                     idx = tuple(int(rs.randint(0, s)) for s in a.values.shape)
                     a.values[idx] = float(new[idx])
+            if op["how"] == "layout":
+                # the model stored its arrays the other way round (results of a transposed computation handed to the public setter):
+                # same numbers, but neither the driver nor the result arrays are C-contiguous any more
+                for a in (stock.stock, stock.inflow, stock.outflow):
+                    v = a.values
+                    if v.ndim >= 3 and op["vseed"] % 2:
+                        perm = (0,) + tuple(range(v.ndim - 1, 0, -1))
+                        inv = tuple(int(i) for i in np.argsort(perm))
+                        a.set_values(np.ascontiguousarray(v.transpose(perm)).transpose(inv))
+                    elif v.ndim >= 2:
+                        a.set_values(np.asfortranarray(v))
+                    if v.ndim >= 2:
+                        self._probe(st, "stock_arrays_not_c_contiguous")
             self._note(st, k, "set_driver")
             return "ret"
         if kind == "set_prms":
@@ -616,6 +641,14 @@ class StockSim(Engine):
             if op.get("bad"):
                 st.faults["negative_parameter"] = st.faults.get("negative_parameter", 0) + 1
             out = self._call(st, op, n, lambda: lt.set_prms(**kw))
+            if not hasattr(st, "given"):
+                st.given = {}
+            for j in shared:
+                # "a freshly built stock with the same inputs": the inputs are what the caller handed to set_prms (copies taken now).
+                # After a set_prms that raised or was interrupted the model may hold a mixture; the reference then falls back to
+                # what the model reports (prms)
+                st.given[j] = None if out != "ret" else {k_: (v.copy() if isinstance(v, FlodymArray) else (np.array(v, copy=True) if isinstance(v, np.ndarray) else v))
+                                                         for k_, v in kw.items()}
             for j in shared:
                 self._note(st, j, "set_prms" if out == "ret" else ("interrupted_set_prms" if out == "interrupt" else "failed_set_prms"))
             if len(shared) > 1:
@@ -636,7 +669,7 @@ class StockSim(Engine):
             out = self._call(st, op, n, lambda: stock.compute())
             if out == "ret":
                 self._note(st, k, "compute")
-                self._judge_compute(st, stock, drivers, f"{type(stock).__name__}.compute() at step {n}", st.lts[k])
+                self._judge_compute(st, stock, drivers, f"{type(stock).__name__}.compute() at step {n}", st.lts[k], getattr(st, "given", {}).get(k))
                 if op.get("twice"):
                     first = self._results(stock)
                     out2 = self._call(st, {}, n, lambda: stock.compute())
@@ -662,6 +695,9 @@ class StockSim(Engine):
             if op.get("nudge"):
                 vals = p.values * (1.0 + op["nudge"])
                 self._probe(st, "set_prms_almost_equal_values")
+            if op.get("nan") and vals.size > 1:
+                vals.reshape(-1)[-1] = np.nan  # "not known" for one label combination
+                self._probe(st, "parameter_with_nan_entry")
             if op.get("bad") and not name.startswith("driver"):
                 vals = -vals
                 st.faults["negative_parameter"] = st.faults.get("negative_parameter", 0) + 1
